@@ -752,12 +752,17 @@ Definition var_usage_strict_on (S : tsdoc) (o : opdef) (sites : list site) : boo
                                       | _, _ => true
                                       end) (site_var_uses false S x)) sites.
 
+(** what the completeness theorem asks of a document beyond the rules: variables are usable without relying on a
+    default of the position (the clause the implementation lacks), written argument lists are non-empty (grammar),
+    root operation types are object types *)
+Definition doc_guard (S : tsdoc) (D : opdoc) : bool :=
+  forallb (fun o => var_usage_strict_on S o (vis_op_sites S D o)
+                    && forallb site_syntax_ok (vis_op_sites S D o ++ op_const_sites o)
+                    && match sp_root S (op_type o) with Some t => is_object t | None => false end) (doc_ops D).
+
 (** everything the completeness theorem asks of a document, read on the visible sites *)
 Definition doc_fine_vis (S : tsdoc) (D : opdoc) : bool :=
-  forallb (fun r => rule_ok_vis S D r) all_rules
-  && forallb (fun o => var_usage_strict_on S o (vis_op_sites S D o)
-                       && forallb site_syntax_ok (vis_op_sites S D o ++ op_const_sites o)
-                       && match sp_root S (op_type o) with Some t => is_object t | None => false end) (doc_ops D).
+  forallb (fun r => rule_ok_vis S D r) all_rules && doc_guard S D.
 
 (** what the grammar guarantees: a selection set that is written is not empty (used by the subscription rule) *)
 Fixpoint sel_nonempty (x : selection) : bool :=
@@ -774,3 +779,129 @@ Definition selsets_nonempty (D : opdoc) : bool :=
                     | DFrag f => selset_nonempty (fr_sel f)
                     | DImport _ => true
                     end) (od_defs D).
+
+(** * Field Selection Merging (5.3.2) — NOT implemented by nitrogql, and not among the rules of C03's property text.
+    It is written down here because `generate` relies on it: two selections with one response key and different
+    shapes pass `check` and make the result-type generator panic (C08_merge_unchecked_refuted,
+    C03_fields_can_merge_not_checked). Not part of [all_rules] / [spec_valid]. *)
+
+Fixpoint value_eqb (a b : value) {struct a} : bool :=
+  match a, b with
+  | VVar x _, VVar y _ => str_eqb x y
+  | VInt _ x, VInt _ y | VFloat _ x, VFloat _ y | VString _ x, VString _ y | VEnum _ x, VEnum _ y => str_eqb x y
+  | VBool _ x, VBool _ y => Bool.eqb x y
+  | VNull _, VNull _ => true
+  | VList _ xs, VList _ ys =>
+      (fix go (xs ys : list value) : bool :=
+         match xs, ys with
+         | [], [] => true
+         | x :: xr, y :: yr => value_eqb x y && go xr yr
+         | _, _ => false
+         end) xs ys
+  | VObject _ xs, VObject _ ys =>
+      (fix go (xs ys : list (ident * value)) : bool :=
+         match xs, ys with
+         | [], [] => true
+         | (k, x) :: xr, (k', y) :: yr => str_eqb (iname k) (iname k') && value_eqb x y && go xr yr
+         | _, _ => false
+         end) xs ys
+  | _, _ => false
+  end.
+
+Definition args_identical (a b : list (ident * value)) : bool :=
+  let sub x y := forallb (fun kv => existsb (fun kv' => str_eqb (iname (fst kv)) (iname (fst kv')) && value_eqb (snd kv) (snd kv')) y) x in
+  sub a b && sub b a.
+
+(** one field of a "set of fields": response key, parent type, field name, arguments, declared type, sub-selections *)
+Record mfield := mkMField {
+  mf_key : str; mf_parent : option typedef; mf_name : str; mf_args : list (ident * value);
+  mf_type : option ty; mf_sub : list selection }.
+
+(** the fields of a selection set, visiting inline fragments and fragment spreads (each fragment once per path) *)
+Fixpoint merge_fields (fuel : nat) (S : tsdoc) (D : opdoc) (visited : list str) (parent : option typedef)
+         (l : list selection) : list mfield :=
+  match fuel with
+  | 0 => []
+  | Datatypes.S k =>
+      flat_map (fun x =>
+        match x with
+        | SField alias name args _ sub =>
+            [mkMField (match alias with Some a => iname a | None => iname name end) parent (iname name) (provided args)
+               (match parent with
+                | Some p => match sp_field p (iname name) with Some f => Some (fd_type f) | None => None end
+                | None => None
+                end)
+               (match sub with Some ss => selset_sels ss | None => [] end)]
+        | SSpread _ n _ =>
+            if mem (iname n) visited then []
+            else match sp_frag D (iname n) with
+                 | Some f => merge_fields k S D (iname n :: visited) (sp_type S (iname (fr_cond f))) (selset_sels (fr_sel f))
+                 | None => []
+                 end
+        | SInline _ c _ ss =>
+            merge_fields k S D visited (match c with Some c' => sp_type S (iname c') | None => parent end) (selset_sels ss)
+        end) l
+  end.
+
+Definition mf_subparent (S : tsdoc) (f : mfield) : option typedef :=
+  match mf_type f with Some t => sp_type S (iname (ty_unwrapped t)) | None => None end.
+
+Definition is_leaf_type (S : tsdoc) (n : str) : bool :=
+  match sp_type S n with Some (TDScalar _ _ _ _ _) | Some (TDEnum _ _ _ _ _ _) => true | _ => false end.
+
+(** SameResponseShape on the declared types: wrappers agree; a leaf on either side forces the same type *)
+Fixpoint shape_types (S : tsdoc) (a b : ty) : option bool (* Some leaf? / None = different shape *) :=
+  match a, b with
+  | TNonNull a', TNonNull b' => shape_types S a' b'
+  | TNonNull _, _ | _, TNonNull _ => None
+  | TList _ a', TList _ b' => shape_types S a' b'
+  | TList _ _, _ | _, TList _ _ => None
+  | TNamed x, TNamed y =>
+      if is_leaf_type S (iname x) || is_leaf_type S (iname y)
+      then (if str_eqb (iname x) (iname y) then Some true else None)
+      else Some false
+  end.
+
+Definition both_objects_differ (a b : option typedef) : bool :=
+  match a, b with
+  | Some (TDObject _ _ n _ _ _ _), Some (TDObject _ _ m _ _ _ _) => negb (str_eqb (iname n) (iname m))
+  | _, _ => false
+  end.
+
+(** SameResponseShape and FieldsInSetCanMerge, one unit of fuel per level of nesting *)
+Fixpoint same_shape (fuel : nat) (S : tsdoc) (D : opdoc) (cf : nat) (a b : mfield) : bool :=
+  match fuel with
+  | 0 => true
+  | Datatypes.S k =>
+      match mf_type a, mf_type b with
+      | Some ta, Some tb =>
+          match shape_types S ta tb with
+          | None => false
+          | Some true => true
+          | Some false =>
+              let merged := merge_fields cf S D [] (mf_subparent S a) (mf_sub a) ++ merge_fields cf S D [] (mf_subparent S b) (mf_sub b) in
+              forallb (fun x => forallb (fun y => negb (str_eqb (mf_key x) (mf_key y)) || same_shape k S D cf x y) merged) merged
+          end
+      | _, _ => true      (* an undefined field: Field Selections (5.3.1) is violated, nothing to say here *)
+      end
+  end.
+
+Fixpoint can_merge (fuel : nat) (S : tsdoc) (D : opdoc) (cf : nat) (fields : list mfield) : bool :=
+  match fuel with
+  | 0 => true
+  | Datatypes.S k =>
+      forallb (fun a => forallb (fun b =>
+        negb (str_eqb (mf_key a) (mf_key b))
+        || (same_shape fuel S D cf a b
+            && (both_objects_differ (mf_parent a) (mf_parent b)
+                || (str_eqb (mf_name a) (mf_name b) && args_identical (mf_args a) (mf_args b)
+                    && can_merge k S D cf (merge_fields cf S D [] (mf_subparent S a) (mf_sub a)
+                                           ++ merge_fields cf S D [] (mf_subparent S b) (mf_sub b)))))) fields) fields
+  end.
+
+Definition fields_can_merge_ok (S : tsdoc) (D : opdoc) : bool :=
+  let cf := Datatypes.S ((Datatypes.S (length (doc_fragdefs D))) * doc_depth_sp D) in
+  let depth := cf in
+  forallb (fun o => can_merge depth S D cf (merge_fields cf S D [] (sp_root S (op_type o)) (selset_sels (op_sel o)))) (doc_ops D)
+  && forallb (fun f => can_merge depth S D cf (merge_fields cf S D [] (sp_type S (iname (fr_cond f))) (selset_sels (fr_sel f))))
+             (doc_fragdefs D).
